@@ -18,7 +18,7 @@ TIE_MODULES = ["DaliVerif.Tie.Command", "DaliVerif.Tie.Address", "DaliVerif.Tie.
 TIE_THEOREMS = ["Tie.Command.%s" % n for n in
                 ("stdNoParam_tie", "stdParam_tie", "dapc_tie", "devStd_tie", "devInst_tie",
                  "std_rows_traced", "dev_rows_traced", "inst_rows_traced")] + \
-               ["Tie.Event.%s_%s_tie" % (f, sc) for f in ("ev", "evLight")
+               ["Tie.Event.%s_%s_tie" % (f, sc) for f in ("ev", "evLight", "evOcc")
                 for sc in ("device", "deviceInstance", "deviceGroup", "instanceGroup", "inst")]
 THEOREMS = ["table_conforms", "rows_registered", "frame_is_standard", "frame_is_standard_gen",
             "extended_commands_carry_devicetype", "address_patterns"]
